@@ -64,8 +64,18 @@ def case(draw, P):
     sc = draw(st.integers(1, min(N, NR)))
     iY, jY = draw(st.integers(0, M - sr)), draw(st.integers(0, N - sc))
     iT, jT = draw(st.integers(0, MR - sr)), draw(st.integers(0, NR - sc))
-    if draw(st.integers(0, 2 if same else 5)) == 0:          # tile-aligned displacements (reshuffle path when `same`)
+    mode = draw(st.integers(0, 2 if same else 5))
+    if mode <= (1 if same else 0):          # tile-aligned displacements (reshuffle path when `same`)
         iY, jY, iT, jT = iY - iY % MB, jY - jY % NB, iT - iT % MBR, jT - jT % NBR
+        if mode == 1 or draw(st.integers(0, 3)) == 0:
+            # boundary of the "tile-aligned" decision: exactly one displacement is aligned to the OTHER tile dimension
+            # (or one element off a tile start), the three others stay aligned
+            which = draw(st.integers(0, 3))
+            other = [NB, MB, NBR, MBR][which]
+            hi = [M - sr, N - sc, MR - sr, NR - sc][which]
+            cands = sorted(set([x for x in range(0, hi + 1, other)] + [x for x in ([iY, jY, iT, jT][which] + 1, [iY, jY, iT, jT][which] - 1) if 0 <= x <= hi]))
+            v = draw(st.sampled_from(cands))
+            iY, jY, iT, jT = [v if q == which else x for q, x in enumerate((iY, jY, iT, jT))]
     sd = draw(st.integers(0, 2)) == 0 and sbc_ok
     td = draw(st.integers(0, 2)) == 0 and sbc_ok
     divs = [d for d in range(1, P + 1) if P % d == 0]
@@ -110,7 +120,7 @@ def run(tier, seed, res):
     res.assumptions = ASSUME
     groups = [(1, 2), (2, 1), (2, 3), (3, 2), (4, 1), (4, 2), (2, 4), (3, 1)] if quick else \
         [(P, T) for P in (1, 2, 3, 4) for T in (1, 2, 3, 4)] * 2
-    per = 45 if quick else 600
+    per = 150 if quick else 1200
     batches = []
     for i, (P, T) in enumerate(groups):
         cases = mb.generate(case(P), per, seed * 1000 + i)
@@ -119,7 +129,7 @@ def run(tier, seed, res):
     mb.run_batches(PROP, b, batches, res, "cases", timeout=300 if quick else 1800, max_parallel=4,
                    tq_ms=5000 if quick else 20000)
     bg.join()
-    floor = 60 if quick else 4000
+    floor = 200 if quick else 8000
     if not res.violations and res.distinct_nontrivial < floor:
         res.inconclusive = "only %d non-trivial cases executed (floor %d)" % (res.distinct_nontrivial, floor)
 
